@@ -9,6 +9,11 @@ const KNOWN: [&str; 19] = [
     "tracing", "clap", "log", "env_logger", "sqlx", "futures", "bytes", "itertools",
 ];
 const UNKNOWN: [&str; 4] = ["notacrate", "my_lib", "zzz", "axum_extra"];
+/// Well-known crate names: whichever of them the known-good table does not list must be refused, never wildcarded.
+const POPULAR: [&str; 40] = ["once_cell", "lazy_static", "itertools", "rayon", "anyhow", "thiserror", "clap", "log", "env_logger", "bytes",
+    "futures", "hyper", "tracing", "bitflags", "libc", "num", "num_traits", "crossbeam", "parking_lot", "smallvec", "indexmap", "hashbrown",
+    "url", "base64", "hex", "sha2", "md5", "flate2", "tempfile", "walkdir", "glob", "toml", "serde_yaml", "csv", "image", "nom", "syn", "quote",
+    "proc_macro2", "time"];
 
 /// `[dependencies]` section as `name=spec` entries in file order, plus package / bin names.
 pub fn read_manifest(path: &str) -> Result<String, String> {
@@ -114,13 +119,19 @@ fn program(serde: bool, tokio: bool, web: bool, crates: &[&str], in_dep: bool) -
         main.push_str("from web import App, route, Response, GET\n");
     }
     main.push('\n');
-    if serde {
+    // with a dependency module, the serde / async triggers live there and nowhere else: every module's code ends
+    // up in the generated crate
+    if serde && in_dep {
+        dep.push_str("\n@derive(Serialize)\npub model Item:\n    name: str\n");
+    } else if serde {
         main.push_str("@derive(Serialize)\nmodel Item:\n    name: str\n\n");
     }
     if web {
         main.push_str("@route(\"/\", methods=[GET])\ndef index() -> Response:\n    return Response.html(\"hi\")\n\n");
     }
-    if tokio {
+    if tokio && in_dep {
+        dep.push_str("\npub async def work() -> int:\n    return 1\n");
+    } else if tokio {
         main.push_str("async def work() -> int:\n    return 1\n\n");
     }
     main.push_str("def main() -> None:\n");
@@ -267,6 +278,9 @@ fn trigger_programs() -> Vec<(String, String)> {
     v.push(("async:trait-default-method".into(), "trait W:\n    async def w(self) -> int:\n        return 1\n\nclass K with W:\n    v: int\n\ndef main() -> None:\n    pass\n".into()));
     v.push(("async:model-method".into(), "model M:\n    v: int\n\n    async def w(self) -> int:\n        return 1\n\ndef main() -> None:\n    pass\n".into()));
     v.push(("web:route-only".into(), "@route(\"/\")\ndef index() -> str:\n    return \"hi\"\n\ndef main() -> None:\n    pass\n".into()));
+    // the web import is not the first from-import of the file
+    v.push(("web:import-after-other-from-import".into(), "from testing import assert_eq\nfrom web import App\n\ndef main() -> None:\n    pass\n".into()));
+    v.push(("web:import-after-local-from-import".into(), "from helper_mod import helper\nfrom web import App\n\ndef main() -> None:\n    print(helper())\n".into()));
     v.push(("web:import-only".into(), "from web import App\n\ndef main() -> None:\n    pass\n".into()));
     v.push(("web+tokio-import".into(), "from web import App\nimport rust::tokio\nfrom rust::serde_json import Value\n\ndef main() -> None:\n    pass\n".into()));
     v.push(("serde+serde-import".into(), "from rust::serde import Serialize\nimport rust::serde_json\n\n@derive(Serialize)\nmodel Item:\n    name: str\n\ndef main() -> None:\n    pass\n".into()));
@@ -281,6 +295,9 @@ fn trigger_case(out: &mut Out, scratch: &str, name: &str, src: &str) {
     std::fs::create_dir_all(&ws).expect("mkdir");
     let main_path = format!("{ws}/app.incn");
     std::fs::write(&main_path, src).expect("write");
+    if src.contains("from helper_mod import") {
+        std::fs::write(format!("{ws}/helper_mod.incn"), "pub def helper() -> int:\n    return 1\n").expect("write");
+    }
     let res = catch(|| incan::cli::commands::build_file(&main_path, Some(&outdir)));
     let status = match &res {
         Ok(Ok(_)) => "built".to_string(),
@@ -294,7 +311,7 @@ fn trigger_case(out: &mut Out, scratch: &str, name: &str, src: &str) {
     let (flags, crates) = match name {
         n if n.starts_with("serde:") => ("100", "-"),
         n if n.starts_with("async:") => ("010", "-"),
-        "web:route-only" | "web:import-only" => ("001", "-"),
+        "web:route-only" | "web:import-only" | "web:import-after-other-from-import" | "web:import-after-local-from-import" => ("001", "-"),
         "web+tokio-import" => ("001", "tokio,serde_json"),
         "serde+serde-import" => ("100", "serde,serde_json"),
         "async+tokio-import" => ("010", "tokio"),
@@ -365,7 +382,7 @@ pub fn run(out: &mut Out, tier: &str, seed: u64, scratch: &str) {
 
     let reps = if thorough { 12 } else { 5 };
     // A: whole known table one by one, all flag combinations with fixed crate sets, random subsets
-    for c in KNOWN.iter().chain(UNKNOWN.iter()) {
+    for c in KNOWN.iter().chain(UNKNOWN.iter()).chain(POPULAR.iter().filter(|p| !KNOWN.contains(p))) {
         manifest_case(out, scratch, "proj", (false, false, false), &[c], 0);
     }
     for s in [false, true] {
@@ -406,6 +423,11 @@ pub fn run(out: &mut Out, tier: &str, seed: u64, scratch: &str) {
     build_case(out, scratch, "app", false, false, false, &["notacrate"], false, 0);
     build_case(out, scratch, "app", true, false, false, &["rand", "notacrate", "uuid"], false, 0);
     build_case(out, scratch, "app", false, false, false, &["rand", "uuid"], true, 0);
+    // features used only in the dependency module
+    for (sd, tk) in [(true, false), (false, true), (true, true)] {
+        build_case(out, scratch, "app", sd, tk, false, &[], true, 0);
+        build_case(out, scratch, "app", sd, tk, false, &["rand"], true, 0);
+    }
     build_case(out, scratch, "app", false, true, false, &["serde_json", "tokio"], false, 0);
     for name in ["my-prog", "my_prog", "a1", "prog2", "x"] {
         build_case(out, scratch, name, true, false, false, &["rand"], false, 0);
